@@ -93,7 +93,9 @@ func scenarioHistories(c *vrun.Ctx) {
 		Depth int `json:"depth"`
 	}
 	c.Params(&p)
-	alphabet := []string{"h", "g", "+239h", "+1h", "+1s"}
+	// h, H and h. are three spellings of one host (letter case, trailing dot): whatever the cache
+	// does with them, the certificate returned must name the host as it was asked for
+	alphabet := []string{"h", "H", "h.", "g", "+239h", "+1h", "+1s"}
 	n := len(alphabet)
 	total := 1
 	for i := 0; i < p.Depth; i++ {
@@ -130,7 +132,7 @@ func scenarioHistories(c *vrun.Ctx) {
 			case "+1s":
 				vtime.Advance(time.Second)
 			default:
-				host := map[string]string{"h": "host-h.test", "g": "10.1.2.3"}[ev]
+				host := map[string]string{"h": "host-h.test", "H": "HOST-H.Test", "h.": "host-h.test.", "g": "10.1.2.3"}[ev]
 				now := vtime.Peek()
 				cert, err := ca.GetCertForHost(host + ":443")
 				if err != nil {
